@@ -1170,8 +1170,8 @@ def check_C40(rep):
                 rep.nontriv(("pair", name, n % 4, mode, sum(r["good"] for r in recs), sum(r["bad"] for r in recs)))
 
     # boundary lengths up to the maximum packet size (1024): good and corrupted CRC-32, with / without not-valid
-    # words, each followed by a short good packet  (TLC's bit-serial CRC-32 costs ~1.5 ms per byte: few of them)
-    big = [(1024, True, 0.0), (1024, False, 0.05), (1023, True, 0.05), (1022, True, 0.0), (1021, False, 0.0), (1020, True, 0.05)]
+    # words, each followed by a short good packet  (TLC's bit-serial CRC-32 costs a few ms per byte: four in quick, more in thorough)
+    big = [(1024, True, 0.0), (1024, False, 0.05), (1023, True, 0.05), (1021, True, 0.0)]
     if not quick:
         big += [(n, g, gp) for n in (1024, 1023, 1022, 1021, 1020, 1019, 1017, 1000, 513, 512) for g in (True, False) for gp in (0.0, 0.05)]
     for n, good, gp in big:
